@@ -47,6 +47,11 @@ FLAVOURS = {
     "so": ("gcc", "-O2 -g -fPIC -DPIC", ""),
     # a distribution building with CPPFLAGS=-DNDEBUG: an assert() whose argument has a side effect disappears
     "ndebug": ("gcc", "-O2 -g -DNDEBUG", ""),
+    # other optimisation / target choices a packager may make: they select other code in the hash cores
+    # (__OPTIMIZE_SIZE__ paths; alignment assumptions that only bite with SSSE3-era aligned loads)
+    "os": ("gcc", "-Os -g", ""),
+    "v2": ("gcc", "-O2 -g -march=x86-64-v2", ""),
+    "so-ndebug": ("gcc", "-O2 -g -fPIC -DPIC -DNDEBUG", ""),
     "so-asan": ("gcc", "-O1 -g -fno-omit-frame-pointer -fPIC -DPIC "
                 "-fsanitize=address,undefined -fno-sanitize-recover=all",
                 "-fsanitize=address,undefined"),
